@@ -604,7 +604,7 @@ def run(ctx):
     ctx.disagreements += len(failing)
     detail = ""
     if failing:
-        sub = [coq_cases[i] for i in failing[:400]]
+        sub = [coq_cases[i] for i in failing[:150]]
         match = []
         for name, term in VARIANTS.items():
             if name == "fixed":
